@@ -352,3 +352,40 @@ Proof.
 Qed.
 
 End Reach.
+
+(* ---------------------------------------------------------------- both halves together, in a world *)
+Lemma erun_app n i fuel a : forall b e h,
+  erun n i fuel (a ++ b) e h =
+  let '(e1, h1, o1) := erun n i fuel a e h in
+  let '(e2, h2, o2) := erun n i fuel b e1 h1 in (e2, h2, o1 ++ o2).
+Proof.
+  induction a as [|o r IH]; intros b e h; cbn [app erun].
+  - destruct (erun n i fuel b e h) as [[e2 h2] o2]. reflexivity.
+  - destruct (estep fuel n i o e h) as [[e1 h1] ob]. rewrite IH.
+    destruct (erun n i fuel r e1 h1) as [[e2 h2] o2]. destruct (erun n i fuel b e2 h2) as [[e3 h3] o3]. reflexivity.
+Qed.
+Lemma erun_length n i fuel : forall a e h, length (snd (erun n i fuel a e h)) = length a.
+Proof.
+  induction a as [|o r IH]; intros e h; cbn [erun]; [reflexivity|].
+  destruct (estep fuel n i o e h) as [[e1 h1] ob]. specialize (IH e1 h1).
+  destruct (erun n i fuel r e1 h1) as [[e2 h2] o2]. cbn [snd length] in *. rewrite IH. reflexivity.
+Qed.
+
+(* any number of engines, ANY schedule; the operations of engine i are a history pre (queries started over variables
+   not occurring in the other queries held) followed by next / close / drain operations ops, interleaved in any way
+   with the operations of the other engines: what engine i observes on slot q during ops is what the slot shows when
+   it is the only one advanced, in an engine that ran alone *)
+Theorem world_disjoint_queries_alone fuel n i sched pre ops e h bs0 q : i < n ->
+  map snd (only i sched) = pre ++ ops ->
+  hist_ok n i fuel pre init_engine [] -> erun n i fuel pre init_engine [] = (e, h, bs0) -> Forall qop ops ->
+  pick q ops (skipn (length pre) (proj i (snd (wrun fuel (init_world n) sched))))
+  = snd (erun n i fuel (filter (is_slot q) ops) e (fP (PQ_of n i e q) h)).
+Proof.
+  intros Hi Es Ok E F.
+  rewrite (interleave_alone_init fuel n sched i Hi), Es, erun_app, E.
+  pose proof (erun_length n i fuel pre init_engine []) as L. rewrite E in L. cbn [snd] in L.
+  destruct (erun n i fuel ops e h) as [[e2 h2] o2] eqn:E2. cbn [snd].
+  rewrite <- L, skipn_app, Nat.sub_diag, skipn_all. cbn [skipn app].
+  pose proof (disjoint_queries_alone n i Hi fuel pre ops e h bs0 q Ok E F) as D.
+  rewrite E2 in D. exact D.
+Qed.
